@@ -1,7 +1,8 @@
 // Slot level correspondence driver: calls the element-moving helpers of include/amc/vectorcommon.hpp (namespace amc::vec)
 // DIRECTLY on a raw buffer of `cap` slots of the instrumented, non trivially relocatable element vf::El<0>, the way the
 // member functions of VectorImpl call them, and prints the state of every slot before and after the call.
-// lib/slotcorr.py evaluates the Coq slot models (coq/Slots.v, Erase.v, Alias.v, Throw.v) on the same cases and compares.
+// lib/slotcorr.py evaluates the Coq slot models (coq/Slots.v, Erase.v, Alias.v, Throw.v, EmplaceGrow.v) on the same cases and
+// compares.  The families of EmplaceGrow.v (emplace_n_th, emplace_grow_th, emplace_back_grow_th) print composite states.
 // The line format, the real function behind every case and the model it is compared with: see SLOTDRV.md.
 //
 //   CASE <name> <param>=<int>... k=<k|-> | pre=<slots> | post=<slots> | threw=<0|1> | newsize=<n|-> | errs=<n> live=<n> [msg=<text>]
@@ -20,6 +21,13 @@
 #include "common.hpp"
 
 #include <amc/vector.hpp>
+
+namespace vf {
+template <class T, bool W>
+bool LedgerAlloc<T, W>::amc_is_tr() {
+  return amc::is_trivially_relocatable<T>::value;
+}
+}  // namespace vf
 
 using vf::G;
 typedef vf::El<0> T;
@@ -43,11 +51,11 @@ struct Buf {
   Buf &operator=(const Buf &) = delete;
 };
 
-static std::string slotStates(const Buf &b) {
+static std::string statesOf(const T *data, int n) {
   std::vector<std::string> out;
   std::vector<long> claimed;
-  for (int i = 0; i < b.cap; ++i) {
-    const T *p = b.data + i;
+  for (int i = 0; i < n; ++i) {
+    const T *p = data + i;
     if (!G().isLive(p->id) || std::find(claimed.begin(), claimed.end(), p->id) != claimed.end()) {
       out.push_back("R");
       continue;
@@ -58,6 +66,12 @@ static std::string slotStates(const Buf &b) {
     out.push_back(s);
   }
   return vf::joinStr(out);
+}
+static std::string slotStates(const Buf &b) { return statesOf(b.data, b.cap); }
+static int liveIn(const T *data, int n) {
+  int c = 0;
+  for (int i = 0; i < n; ++i) c += G().isLive(data[i].id) ? 1 : 0;
+  return c;
 }
 static void killAll(Buf &b) {
   for (int i = 0; i < b.cap; ++i)
@@ -150,6 +164,141 @@ static long insertOwn(T *buf, int size, int pos, int src) {
   return size + 1;
 }
 
+// ---- the paths that build the new element in a temporary ElemStorage first (coq/EmplaceGrow.v) ---------------------------
+// Composite states: segments separated by '/'.
+//   emplace_n_th:                          <block 0..cap-1>/<argument>/<e>
+//   emplace_grow_th, emplace_back_grow_th: <old block 0..size-1>/<argument>/<e>/<new block 0..capacity-1, or - when none exists>
+// <argument>: the state of the object passed to the call (`O` when it was an element of a block that has been freed);
+// <e>: `R` when no live El exists outside the block(s) and the external object, `X<n>` otherwise (a leaked temporary).
+// src = index of the own element passed as the argument; src = cap + 2 (the slot of the model): the external object.
+static std::string eState(long unaccounted) { return unaccounted == 0 ? std::string("R") : "X" + std::to_string(unaccounted); }
+
+static void runEmplaceN(int size, int cap, int pos, int src, int rv) {
+  const bool own = src < size;
+  const std::string params = P("size", size, "cap", cap) + " " + P("pos", pos, "src", src) + " " + P("rv", rv);
+  for (long k = -1;; ++k) {
+    bool threw = false;
+    {
+      Buf b(cap);
+      setupPrefix(b.data, size);
+      T ext(kNewValue);  // alive during every case, the argument when src is not an own element
+      T *arg = own ? b.data + src : &ext;
+      G().errors.clear();
+      const long errs0 = G().nErrors;
+      const std::string pre = slotStates(b) + "/" + statesOf(arg, 1) + "/" + eState(G().live - 1 - liveIn(b.data, cap));
+      std::printf("CASE emplace_n_th %s k=%s |", params.c_str(), k < 0 ? "-" : std::to_string(k).c_str());
+      std::fflush(stdout);
+      long newSize = size;
+      G().countdown = k;
+      try {
+        if (rv) {
+          amc::vec::emplace_n(b.data + pos, static_cast<SizeType>(size - pos), std::move(*arg));
+        } else {
+          amc::vec::emplace_n(b.data + pos, static_cast<SizeType>(size - pos), static_cast<const T &>(*arg));
+        }
+        newSize = size + 1;
+      } catch (const std::runtime_error &) {
+        threw = true;
+      }
+      G().countdown = -1;
+      const std::string post = slotStates(b) + "/" + statesOf(arg, 1) + "/" + eState(G().live - 1 - liveIn(b.data, cap));
+      const long errs = G().nErrors - errs0;
+      std::printf(" pre=%s | post=%s | threw=%d | newsize=%ld | errs=%ld live=%ld", pre.c_str(), post.c_str(), threw ? 1 : 0, newSize, errs,
+                  G().live - 1);
+      if (errs != 0 && !G().errors.empty()) std::printf(" msg=%s", G().errors[0].c_str());
+      std::printf("\n");
+      killAll(b);
+    }
+    if (k >= 0 && !threw) break;
+  }
+}
+
+// a FULL amc::vector (size == capacity) whose allocator counts `allocate` as a throwing-capable event
+typedef amc::vector<T, vf::LedgerAlloc<T, false>, SizeType> GrowVec;
+
+// pos < 0: emplace_back;  otherwise emplace (begin () + pos, ...)
+static void runGrow(const char *name, int size, int pos, int src, int rv) {
+  const bool own = src < size;
+  const std::string params =
+      pos < 0 ? P("size", size, "src", src) + " " + P("rv", rv) : P("size", size, "pos", pos) + " " + P("src", src, "rv", rv);
+  for (long k = -1;; ++k) {
+    bool threw = false;
+    {
+      GrowVec v;
+      v.reserve(static_cast<SizeType>(size));  // exact
+      for (int i = 0; i < size; ++i) v.emplace_back(kFirstValue + i);
+      T ext(kNewValue);
+      T *oldData = v.data();
+      const bool full = static_cast<int>(v.size()) == size && static_cast<int>(v.capacity()) == size;
+      std::vector<long> oldIds;
+      for (int i = 0; i < size; ++i) oldIds.push_back(oldData[i].id);
+      T *arg = own ? oldData + src : &ext;
+      G().errors.clear();
+      const long errs0 = G().nErrors;
+      const size_t blocks0 = G().blocks.size();
+      const std::string pre = statesOf(oldData, size) + "/" + statesOf(arg, 1) + "/" + eState(G().live - 1 - size) + "/-";
+      std::printf("CASE %s %s k=%s |", name, params.c_str(), k < 0 ? "-" : std::to_string(k).c_str());
+      std::fflush(stdout);
+      G().countdown = k;
+      try {
+        if (pos < 0) {
+          if (rv) {
+            v.emplace_back(std::move(*arg));
+          } else {
+            v.emplace_back(static_cast<const T &>(*arg));
+          }
+        } else {
+          if (rv) {
+            v.emplace(v.begin() + pos, std::move(*arg));
+          } else {
+            v.emplace(v.begin() + pos, static_cast<const T &>(*arg));
+          }
+        }
+      } catch (const std::runtime_error &) {
+        threw = true;
+      } catch (const std::bad_alloc &) {
+        threw = true;
+      }
+      G().countdown = -1;
+      const bool oldFreed = size > 0 && G().blocks.find(oldData) == G().blocks.end();
+      const bool moved = v.data() != oldData;
+      std::string oldSeg, argSeg, newSeg;
+      long accounted = 0;
+      if (size == 0) {
+        oldSeg = "-";
+      } else if (!oldFreed) {
+        oldSeg = statesOf(oldData, size);
+        accounted += liveIn(oldData, size);
+      } else {
+        std::vector<std::string> o;
+        for (int i = 0; i < size; ++i) {
+          o.push_back(G().isLive(oldIds[i]) ? "X" : "O");  // X: an element of the freed block was never destroyed
+        }
+        oldSeg = vf::joinStr(o);
+      }
+      argSeg = own && oldFreed ? std::string("O") : statesOf(arg, 1);
+      if (!moved) {
+        newSeg = G().blocks.size() == blocks0 ? "-" : "X";  // X: a block was allocated and not released
+      } else {
+        newSeg = statesOf(v.data(), static_cast<int>(v.capacity()));
+        accounted += liveIn(v.data(), static_cast<int>(v.capacity()));
+        if (G().blocks.size() != 1) newSeg += ",X";
+      }
+      const std::string post = oldSeg + "/" + argSeg + "/" + eState(G().live - 1 - accounted) + "/" + newSeg;
+      const long errs = G().nErrors - errs0;
+      std::printf(" pre=%s | post=%s | threw=%d | newsize=%ld | errs=%ld live=%ld", pre.c_str(), post.c_str(), threw ? 1 : 0,
+                  static_cast<long>(v.size()), errs, G().live - 1);
+      if (!full) {
+        std::printf(" msg=the vector was not full before the call");
+      } else if (errs != 0 && !G().errors.empty()) {
+        std::printf(" msg=%s", G().errors[0].c_str());
+      }
+      std::printf("\n");
+    }
+    if (k >= 0 && !threw) break;
+  }
+}
+
 // usage: slotdrv [max size (default 4)] [max spare capacity = max count (default 3)]
 int main(int argc, char **argv) {
   const int maxSize = argc > 1 ? std::atoi(argv[1]) : 4;
@@ -190,6 +339,37 @@ int main(int argc, char **argv) {
           for (int src = 0; src < size; ++src) {
             runCase("insert_own", sc + " " + P("pos", pos, "src", src), cap, false, -1, prefix,
                     [=](T *buf, const T &) { return insertOwn(buf, size, pos, src), -1L; });
+          }
+          // insert(pos, const T&) with an external value, every throw index: the catch branch of insert_n calls shift_left
+          runCase("insert_n_th", sc + " " + P("pos", pos), cap, true, -1, prefix, [=](T *buf, const T &v) {
+            amc::vec::insert_n(buf + pos, static_cast<SizeType>(n), v);
+            return -1L;
+          });
+          if (n > 0) {
+            // shift_left alone, on the state the real shift_right leaves
+            runCase("shift_left", sc + " " + P("pos", pos), cap, false, -1,
+                    [=](T *buf) {
+                      setupPrefix(buf, size);
+                      amc::vec::shift_right(buf + pos, static_cast<SizeType>(n));
+                    },
+                    [=](T *buf, const T &) {
+                      amc::vec::shift_left(buf + pos + 1, static_cast<SizeType>(n));
+                      return -1L;
+                    });
+          }
+          // emplace_n: own element / external object, as an lvalue (copied: throwing) and as an rvalue (moved)
+          for (int src = 0; src <= size; ++src) {
+            for (int rv = 0; rv <= 1; ++rv) runEmplaceN(size, cap, pos, src < size ? src : cap + 2, rv);
+          }
+        }
+      }
+
+      // emplace / emplace_back of a full vector (growth path), once per size
+      if (extra == 0) {
+        for (int src = 0; src <= size; ++src) {
+          for (int rv = 0; rv <= 1; ++rv) {
+            for (int pos = 0; pos <= size; ++pos) runGrow("emplace_grow_th", size, pos, src < size ? src : size + 2, rv);
+            runGrow("emplace_back_grow_th", size, -1, src < size ? src : size + 2, rv);
           }
         }
       }
